@@ -29,7 +29,7 @@ EXPLANATION = (
     'parents are derived from its body (getters resolved); whenever a recompute call on node X reports a change and writes a field of the first kind, X '
     'itself is scheduled, and for a field of the second kind every child of X is scheduled, on every path on which the change is reported; every '
     'element of the recompute set is handed to the recomputation.'
-    ' Added later; (7) the guard of the parent recursion in updateScores holds for (start node, nothing changed). (8) every change of a pending mark is followed by updateScores (directly or through a function that always recomputes) on every path.')
+    ' Added later; (7) the guard of the parent recursion in updateScores holds for (start node, nothing changed). (8) every change of a pending mark is followed by updateScores (directly or through a function that always recomputes) on every path. (9) every write of a node\'s search result (score or best non-book move) is followed by updateScores on every path.')
 UNDECIDED = ('that scores are at the fixed point of the negamax / path-error / expansion-cost equations for every history (value-level '
              'over a DAG); of the upward (negamax / expansion cost) scheduling only the start of the walk (C19.7) is decided, not the updateThis/updateChildren flags.')
 ASSUMPTIONS = ['Serializer::serialize / deSerialize are inverse for equal type lists (utility code outside this property)']
@@ -53,6 +53,7 @@ def run(fb, rep, tier):
     c6_depth_propagation(fb, rep)
     c7_parents_of_start(fb, rep)
     c8_pending_marks(fb, rep)
+    c9_search_result_recomputed(fb, rep)
 
 
 def c4_set_ordering(fb, rep):
@@ -742,3 +743,30 @@ def c8_pending_marks(fb, rep):
                 rep.ob(clause, 'K2 must-pass-through', '%s: the change of a pending mark (%s) is followed by updateScores on every path' % (f.sname.split('::')[-1], cname(e).split('::')[-1]),
                        w is None, R.site(f, e), '' if w is None else 'path to the exit without a recomputation: ' + ' -> '.join('B%s@%s' % x for x in w[-6:]), f.sname)
     rep.floor(clause, 'call sites that change a pending mark', n, 2)
+
+
+# ----------------------------------------------------------------------------- .9
+
+def c9_search_result_recomputed(fb, rep):
+    """K2 the search result of a node - its score *and* its best non-book move - is an input of the node's equations: the move
+    decides whether the search score counts in the negamax value at all (it does not once that move has become a child)
+    and whether the node's own expansion cost is the "already in the book" value.  Every function of BookNode that writes
+    either field must reach updateScores on every path from the write to its exit; skipping the recomputation because the
+    score is unchanged leaves the values computed for the old move in place."""
+    clause = 'C19.9'
+    INPUTS = ('bestNonBookMove', 'searchScore')
+    is_update = lambda e: e is not None and e.get('k') == 'call' and (cname(e).split('::')[-1] == 'updateScores' or cname(e) in ('__assert_fail', 'abort', 'std::abort', 'std::terminate'))
+    n = 0
+    for f in sorted(fb.funcs.values(), key=lambda x: x.key):
+        if not f.has_cfg or not R.in_prog(f) or not f.sname.startswith('BookBuild::BookNode::') or f.d.get('ctor') or f.d.get('dtor'):
+            continue
+        for b, i, e in f.events():
+            tgt = e.get('l') if e.get('k') == 'asg' else (e.get('recv') if e.get('k') == 'call' and e.get('op') == '=' else None)
+            p_ = ap(tgt) if tgt is not None else None
+            if p_ is None or not p_.startswith('this.') or p_.split('.')[-1] not in INPUTS:
+                continue
+            n += 1
+            w = f.path_avoiding((b, i), R.at_exit, is_update)
+            rep.ob(clause, 'K2 must-pass-through', '%s: the write of %s is followed by updateScores on every path' % (f.sname.split('::')[-1], p_.split('.')[-1]), w is None, R.site(f, e),
+                   '' if w is None else 'path to the exit without a recomputation: ' + ' -> '.join('B%s@%s' % x for x in w[-6:]), f.sname)
+    rep.floor(clause, 'writes of a node\'s search result outside constructors', n, 2)
